@@ -16,7 +16,21 @@ META = {
         explanation="All clauses proved unbounded; the run-time battery (names with <= 6 accidentals in all orderings, "
                     "malformed strings) only cross-checks the contracts against CPython.",
     ),
+    "C02": dict(
+        claimed=True, level="proof",
+        technique="contract-based deductive verification (own VC generator over the real ASTs + z3/cvc5)",
+        level_text="The 14 non-unison constructors, the 3 unison constructors, measure and the 4 consonance predicates "
+                   "carry postconditions copied from the property (letter = lup(letter, d); pitch class + s mod 12; valid, "
+                   "unmixed, <= 6 accidentals) and are discharged for EVERY valid name, whatever its accidental string: "
+                   "the helper that augments/diminishes until the interval is right is proved against its strongest "
+                   "postcondition (exact accidental count fold6(t - c0)) with four loop invariants and variants "
+                   "(termination included). Callers are checked against callee contracts only.",
+        level_note=TB + " Known finding C02/unison-exotic-input: for the three unison constructors the clause 'never mixes, "
+                        "at most six accidentals' is proved only for inputs that are themselves unmixed with |net| within range; "
+                        "the witness is replayed on every run.",
+        explanation="All clauses proved unbounded except the unison 'never mixes / <= 6' clause on exotic inputs (known finding).",
+    ),
 }
 
 _NOT_YET = "not yet brought under contract in this build step (see DESIGN.md §9 for the plan); nothing is claimed"
-NOT_APPLICABLE = dict(("C%02d" % i, _NOT_YET) for i in range(2, 21))
+NOT_APPLICABLE = dict(("C%02d" % i, _NOT_YET) for i in range(3, 21))
